@@ -33,6 +33,11 @@ NilPointerKinds == {"nilptr_struct", "nilptr_int"}
 OpaqueKinds == NilPointerKinds \cup {"ptr_struct", "ptr_int", "struct", "nil_slice", "empty_slice", "nil_map", "empty_map",
                                      "int8_zero", "uint_zero", "float32_zero", "int64_one", "time", "func", "empty_array", "slice_str"}
 
+\* opaque kinds a for loop visits zero times (empty or nil collections)
+EmptyIterKinds == {"nil_slice", "empty_slice", "nil_map", "empty_map", "empty_array"}
+\* arrays that stand for a typed Go slice / array in context data ("strs" = []string, "ints" = []int, "array" = [n]int)
+AT(xs, go) == [t |-> "arr", xs |-> xs, go |-> go]
+
 \* ---- floats: exact dyadic rationals num / 2^exp (all of them are exact float64 values)
 RECURSIVE Pow2(_)
 Pow2(e) == IF e = 0 THEN 1 ELSE 2 * Pow2(e - 1)
